@@ -131,7 +131,9 @@ func (v *version) Clone() *version {
 	clone.nonce = make([]byte, len(v.nonce))
 	copy(clone.nonce, v.nonce)
 
-	// not copying metadata
+	// not copying metadata: the clone starts without any, instead of sharing the map of the
+	// original (setting a value on the clone would also change the original, in memory only)
+	clone.metadata = nil
 
 	return &clone
 }
